@@ -375,6 +375,27 @@ func corpus(emit func(Spec)) {
 		b.step(m11, b.sp.Nodes[m11].Time+5, false)
 		emit(b.sp)
 	}
+	// boundary block times of the two trusting-period comparisons (both are strict "<"): the earliest consensus state is
+	// pruned only when time + trusting period < block time; the client is active while head time + trusting period >= block time
+	for _, mode := range []string{"keeper", "raw"} {
+		b := newBuilder("corpus:boundary-times", mode, 4, 100, genesisOpt{num: 500})
+		a1 := b.add(b.child(0, "A1", childOpt{dt: 20}))
+		b.step(a1, t0+25, false)
+		a2 := b.add(b.child(a1, "A2", childOpt{dt: 20}))
+		b.step(a2, t0+45, false)
+		a3 := b.add(b.child(a2, "A3", childOpt{dt: 55}))  // time t0+95
+		b.step(a3, t0+100, false)                         // G: t0 + 100 = block time: NOT pruned yet
+		a4 := b.add(b.child(a3, "A4", childOpt{dt: 15}))  // time t0+110
+		b.step(a4, t0+101, false)                         // G pruned now
+		a5 := b.add(b.child(a4, "A5", childOpt{dt: 15}))  // time t0+125
+		b.step(a5, t0+120, false)                         // A1: t0+20 + 100 = block time: NOT pruned
+		a6 := b.add(b.child(a5, "A6", childOpt{dt: 105})) // time t0+230
+		b.step(a6, t0+225, false)                         // head A5: t0+125 + 100 = block time: still active
+		s6 := b.add(b.child(a5, "S6", childOpt{dt: 104}))
+		b.step(s6, t0+230+100, true) // head A6: t0+230 + 100 = block time: still active (probe)
+		b.step(s6, t0+230+101, true) // one second later: expired, refused
+		emit(b.sp)
+	}
 	// FINDING candidates (each is the witness of a *_refuted theorem; see Refuted/C10_*.v)
 	emit(witnessSameRoot())
 	emit(witnessPrunedFork())
@@ -719,7 +740,9 @@ func mutationSweep(r *hlib.Rand, chainID uint64, variant int) Spec {
 		g.baseFee = r.Bytes(1 + r.Intn(9))
 	}
 	b := newBuilder(fmt.Sprintf("mutations-chain%d", chainID), "keeper", chainID, 999999999, g)
-	o := func() childOpt { return childOpt{dt: uint64(1 + r.Intn(20)), gasLimit: r.Intn(4), gasUsed: r.Intn(4), r: r} }
+	o := func() childOpt {
+		return childOpt{dt: uint64(1 + r.Intn(20)), gasLimit: r.Intn(4), gasUsed: r.Intn(4), r: r}
+	}
 	parentsOf := []int{0}
 	if chainID == 4 {
 		a1 := b.add(b.child(0, "A1", o()))
